@@ -548,6 +548,15 @@ class Adapter:
     # -- whole-session projection through the public API -------------------------------------------
     def project(self, cur, why):
         """Compare everything the program can observe with the spec's `cur` (C10 C11 C12 C13)."""
+        try:
+            return self._project(cur, why)
+        finally:
+            if self.after_project:
+                self.after_project()
+
+    after_project = None
+
+    def _project(self, cur, why):
         w = self.w
         want = norm_state(cur)
         cat = 'failure' if why == 'after-failure' else 'read'
@@ -650,12 +659,14 @@ def doomed_or_transient(state):
 
 
 class Driver:
-    def __init__(self, ctx, shape, graph, strategy='default', seed=0):
+    def __init__(self, ctx, shape, graph, strategy='default', seed=0, world=None):
         self.ctx = ctx
         self.shape = shape
         self.g = graph
         self.rng = random.Random(seed)
-        self.world = World(shape, ctx.scratch.path('db', '%s-%s.sqlite' % (shape, strategy)), strategy)
+        self.world = world or World(shape, ctx.scratch.path('db', '%s-%s.sqlite' % (shape, strategy)), strategy)
+        self.after_call = None       # callback(kind) after every API call / projection (used by the hook traces, C33)
+        self.on_behaviour = None     # callback('begin' | 'end', trace)
         self.stats = {'behaviours': 0, 'steps': 0, 'commits_compared': 0, 'projections': 0, 'failures_checked': 0,
                       'reads_compared': 0, 'identity_checks': 0, 'flush_conflicts': 0, 'deletes': 0, 'nontrivial': {}}
         self.found = []      # (category, what, trace)
@@ -717,6 +728,8 @@ class Driver:
         w.reset(g.nodes[u0]['db'])
         ad = Adapter(w, rng)
         trace = [{'init': norm_plain(g.nodes[u0]['db'])}]
+        if self.on_behaviour:
+            self.on_behaviour('begin', trace)
         self.stats['behaviours'] += 1
         kinds = set()
         belief = self.closure({u0})
@@ -738,6 +751,8 @@ class Driver:
                     self.stats['projections'] += 1
                 pending = any(g.nodes[u]['pendNew'] or g.nodes[u]['pendDel'] or g.nodes[u]['cur'] != g.nodes[u]['tx'] for u in belief)
                 out, ret = ad.call(ev0)
+                if self.after_call:
+                    self.after_call(key[0], out)
                 self.stats['steps'] += 1
                 trace.append({'op': key[0], 'e': key[1], 'k': key[2], 'x': key[3], 'y': key[4], 'out': out, 'ret': sorted(ret)})
                 match = [(u, v) for u, v in cands if g.nodes[v]['ev']['out'] == out and set(g.nodes[v]['ev']['ret']) == set(ret)]
@@ -801,6 +816,8 @@ class Driver:
         finally:
             self.stats['identity_checks'] += ad.identity_checks
             self.cleanup()
+            if self.on_behaviour:
+                self.on_behaviour('end', trace)
         for k in kinds:
             self.stats['nontrivial'][k] = self.stats['nontrivial'].get(k, 0) + 1
         return trace
